@@ -202,6 +202,22 @@ def equalish(rng):
     ])
 
 
+def typing_args(u):
+    import typing
+
+    return tuple(typing.get_args(u))
+
+
+def unions_in(specs, ti):
+    if ti >= len(specs):
+        return []
+    out = []
+    for sp in specs[ti].walk():
+        if sp.kind == "union" and not isinstance(sp.t, str):
+            out.append(sp.t)
+    return out
+
+
 def safe_copy(x):
     try:
         return copy.deepcopy(x)
@@ -230,7 +246,8 @@ def run_case(sh, i, plan):
         specs += twins(rng, prog, gen)
         sh.count("union_twin_histories")
     if rng.random() < 0.5:
-        specs.append(gen.scalar(rng.choice(["datetime", "time", "Decimal", "int", "float", "str"])))
+        specs.append(gen.scalar(rng.choice(["datetime", "time", "Decimal", "Fraction", "int", "float", "str", "bool"])))
+        specs.append(gen.scalar(rng.choice(["Decimal", "float", "str", "datetime", "int"])))
     bare_idx = []
     if rng.random() < 0.4:
         for src in rng.sample(["list", "dict", "typing.Any", "object", "list[typing.Any]", "dict[str, typing.Any]", "tuple", "set", "typing.List", "typing.Mapping"], 2):
@@ -283,11 +300,14 @@ def run_case(sh, i, plan):
                 ops.append({"kind": "pressure", "n": 105000})
                 sh.count("cache_pressure_ops")
             elif r < 0.40:
-                # equal-but-distinct inputs, each its own object
-                x = safe_copy(rng.choice(eq_pool))
-                sh.count("equal_but_distinct_inputs")
+                # equal-but-distinct inputs, each its own object, fed to ONE type in a burst (so an equality-keyed cache is hit)
+                scal = [k for k, sp in enumerate(specs) if sp.kind == "scalar"]
+                tb = rng.choice(scal) if scal and rng.random() < 0.7 else ti
                 kind = rng.choice(["unmarshal", "unmarshal", "marshal"])
-                ops.append({"kind": kind, "t": ti, "x": add(x)})
+                for x0 in rng.sample(eq_pool, min(len(eq_pool), rng.choice([2, 2, 3]))):
+                    sh.count("equal_but_distinct_inputs")
+                    ops.append({"kind": kind, "t": tb, "x": add(safe_copy(x0))})
+                    lib_ops.append(len(ops) - 1)
             elif r < 0.50:
                 x = hostile.pool_item(rng)
                 if hasattr(x, "__next__"):
@@ -377,6 +397,18 @@ def run_case(sh, i, plan):
             if houts[idx] != cold[1]:
                 mech = None
                 T = types[op["t"]]
+                # nested twins: a union somewhere inside this type equals (==) a union of another member order inside an
+                # earlier operation's type - the memoised unwrap()/predicates then hand the earlier spelling to this build
+                mine_u = unions_in(specs, op["t"])
+                for j in range(idx):
+                    if "t" in ops[j] and ops[j]["t"] != op["t"]:
+                        for u2 in unions_in(specs, ops[j]["t"]):
+                            for u1 in mine_u:
+                                try:
+                                    if u1 == u2 and typing_args(u1) != typing_args(u2):
+                                        mech = "union-permutation"
+                                except Exception:  # noqa: BLE001
+                                    pass
                 if op["kind"] == "strref" and any(o["kind"] == "strref" and o["module"] != op["module"] for o in ops[:idx]):
                     mech = "string-ref-cache"
                 for j in range(idx):
